@@ -162,6 +162,7 @@ LEVEL_TEXT = ('Generated-input search: crop(inverse(forward(e_i))) = e_i for eve
               'measured against PyWavelets own round-trip error so approximately-PR wavelets are '
               'held to "no worse than PyWavelets". Thorough tier visits all 106 x 5 x 2 strata.')
 LEVEL_TEXT += (' Also generated: the filter forms, module histories, amplitude scales and autograd contexts of C01.')
+LEVEL_TEXT += (' Round 10: custom same-name pywt.Wavelet objects with rescaled banks.')
 LEVEL_NOTE = ('Sampled configurations with bounded sizes; trusts PyWavelets for the length rule and '
               'the dmey yardstick; KF-D1 (short periodization) classified as known finding.')
 TECHNIQUE = 'property-based testing (Hypothesis), round-trip oracle on extracted operators'
